@@ -2,6 +2,7 @@ package decorator
 
 import (
 	"go/ast"
+	"go/token"
 
 	"github.com/dave/dst"
 )
@@ -158,4 +159,49 @@ func VerifC06Shared() {
 	vfAssert(has1, "both-rendered/first")
 	vfAssert(has2, "both-rendered/second")
 	vfAssert(r2.Ast.Nodes[first] != r2.Ast.Nodes[cl], "both-rendered/distinct")
+}
+
+// VerifC06Links: Clone drops object and scope links (identifier objects with and without a declaring
+// node, file scopes, package scope and import objects).
+func VerifC06Links() {
+	decl := &dst.ValueSpec{Names: []*dst.Ident{{Name: "v"}}}
+	var obj *dst.Object
+	if vfChoice("objdecl", 2) == 0 {
+		obj = dst.NewObj(dst.Var, "v") // no declaring node (e.g. a universe object or one made by hand)
+	} else {
+		obj = &dst.Object{Kind: dst.Var, Name: "v", Decl: decl}
+	}
+	id := &dst.Ident{Name: "v", Obj: obj}
+	c := dst.Clone(id).(*dst.Ident)
+	vfAssert(c.Obj == nil, "clone-drops-object-link")
+	sc := dst.NewScope(nil)
+	sc.Insert(obj)
+	f := &dst.File{Name: &dst.Ident{Name: "p"}, Scope: sc, Decls: []dst.Decl{&dst.GenDecl{Tok: token.VAR, Specs: []dst.Spec{&dst.ValueSpec{Names: []*dst.Ident{id}}}}}}
+	cf := dst.Clone(f).(*dst.File)
+	vfAssert(cf.Scope == nil, "clone-drops-scope-link")
+	vfAssert(cf.Decls[0].(*dst.GenDecl).Specs[0].(*dst.ValueSpec).Names[0].Obj == nil, "clone-drops-object-link")
+	pkg := &dst.Package{Name: "p", Scope: sc, Imports: map[string]*dst.Object{"lib": dst.NewObj(dst.Pkg, "lib")}, Files: map[string]*dst.File{"a.go": f}}
+	cp := dst.Clone(pkg).(*dst.Package)
+	vfAssert(cp.Scope == nil, "clone-drops-scope-link")
+	for _, o := range cp.Imports {
+		vfAssert(o == nil, "clone-drops-object-link")
+	}
+	vfAssert(vfNoAlias(pkg, cp), "no-shared-storage")
+}
+
+// VerifC06SharedFile: the rejection of a shared node also holds at the public RestoreFile level, with
+// and without Extras.
+func VerifC06SharedFile() {
+	shared := &dst.Ident{Name: "x"}
+	mk := func(e dst.Expr) dst.Decl {
+		return &dst.GenDecl{Tok: token.VAR, Specs: []dst.Spec{&dst.ValueSpec{Names: []*dst.Ident{{Name: "_"}}, Values: []dst.Expr{e}}}}
+	}
+	f := &dst.File{Name: &dst.Ident{Name: "p"}, Decls: []dst.Decl{mk(shared), mk(shared)}}
+	res := NewRestorer()
+	res.Extras = vfChoice("extras", 2) == 1
+	vfAssert(vfExpectPanic(func() { res.RestoreFile(f) }), "shared-node-rejected-by-restorefile")
+	g := &dst.File{Name: &dst.Ident{Name: "p"}, Decls: []dst.Decl{mk(shared), mk(dst.Clone(shared).(*dst.Ident))}}
+	res2 := NewRestorer()
+	res2.Extras = res.Extras
+	vfAssert(!vfExpectPanic(func() { res2.RestoreFile(g) }), "cloned-node-accepted-by-restorefile")
 }
